@@ -373,6 +373,14 @@ func cmdCheck(args []string) int {
 			fmt.Printf("  uncontracted calls in %s: %s\n", fc.Name, strings.Join(rep.Uncontracted, ", "))
 		}
 		rep.Uses = sortedKeys(ex.usedContracts)
+		if ex.aborted == "" {
+			// an `at <callee>` clause that matches no contracted call would be silently vacuous
+			for _, callee := range sortedKeys(fc.CallAsserts) {
+				if !ex.usedContracts["func "+callee] && !ex.usedContracts["extern "+callee] && !ex.usedContracts["trusted "+callee] {
+					ex.aborted = fmt.Sprintf("`at %s` matches no call made under a contract of that name (contracts used: %s)", callee, strings.Join(rep.Uses, ", "))
+				}
+			}
+		}
 		if ex.aborted != "" {
 			rep.Aborted = ex.aborted
 			ob := &Obligation{Name: fn.Name() + ".verified", Kind: "post", Func: fn.String(), Src: "function could be analysed", Goal: TFalse, Expect: "unsat", Result: "undecided", Solver: "none", Output: ex.aborted, Props: fc.Props}
